@@ -78,7 +78,7 @@ prop("C11", "other",
 prop("C12", "other",
      "_parse_attribute_name/_title_format/dedupe contracts where in reach; bounded: property names over a class alphabet (every length <= 2 string), sibling pairs, titles; "
      "each generated module is executed.",
-     bounded=[B3.c12_names, B3.c12_siblings, B3.c12_titles, B3.c12_class_names])
+     bounded=[B3.c12_names, B3.c12_siblings, B3.c12_titles, B3.c12_class_names, B3.c12_codepoints])
 
 prop("C17", "other",
      "__eq__ contracts (Element, _Property) where in reach; bounded: all pairs of element variants one keyword/literal/property attribute/class apart: "
